@@ -62,7 +62,10 @@ class ForcedMismatch(Exception):
 
 def build_dcop(inst):
     """inst: abstract instance (vars, doms | dsize, cons[{name, scope, tab, kind?}], varcost?, init?, mode)"""
-    doms = inst.get("doms") or {v: list(range(inst["dsize"][v])) for v in inst["vars"]}
+    # concrete domain values: never the positions 0..n-1 (an index must not pass for a value), ints for even-ranked
+    # variables and strings for odd-ranked ones, neither in sorted order
+    doms = inst.get("doms") or {v: ([7, 3, 5, 11] if i % 2 == 0 else ["R", "G", "B", "A"])[:inst["dsize"][v]]
+                                for i, v in enumerate(inst["vars"])}
     vars_ = {}
     vc = inst.get("varcost") or {}
     init = inst.get("init") or {}
